@@ -734,13 +734,26 @@ func (c *Ctx) applyTableOverrides(from int) {
 			}
 		case o.Key == "R5:M10":
 			table = c.tableCovered["table:opset"]
-		case o.Key == "R31:gather:G2":
-			// output shape = data[:axis] ++ indices.shape ++ data[axis+1:]: the axis table of Gather prescribes exactly
-			// that for index tensors of rank 0..2 on every axis of operands of rank 1..3 (with unit extents)
-			table = c.tableCovered["R9f:Gather.axis:ret"]
-			if table == "" {
-				table = c.tableCovered["R9f:Gather.axis:out"] // that tensor being the output is G3's clause
+		case strings.HasPrefix(o.Key, "R16:matmul:"):
+			// vector promotion and its undoing, which axes are stretched, operand order of the per-batch product,
+			// the result shape: all visible in the elements of the provenance table
+			table = c.tableCovered["table:matmul"]
+		case strings.HasPrefix(o.Key, "R31:gather:"):
+			// offset of negative indices, output shape, operand roles, block placement: all visible in the elements
+			table = c.tableCovered["table:gather"]
+			if table == "" && o.Key == "R31:gather:G2" {
+				// the output shape alone: the axis table of Gather prescribes it for index tensors of rank 0..2
+				table = c.tableCovered["R9f:Gather.axis:ret"]
+				if table == "" {
+					table = c.tableCovered["R9f:Gather.axis:out"] // that tensor being the output is G3's clause
+				}
 			}
+		case o.Key == "R7:delegates:Transpose":
+			table = c.tableCovered["table:transpose"]
+		case o.Key == "R7:delegates:Expand":
+			table = c.tableCovered["table:expand"]
+		case o.Key == "R7:delegates:Concat":
+			table = c.tableCovered["table:concat"]
 		case strings.HasPrefix(o.Key, "R11:K1:"), strings.HasPrefix(o.Key, "R11:K2:"), strings.HasPrefix(o.Key, "R11:K3:"), strings.HasPrefix(o.Key, "R11:K6:"),
 			strings.HasPrefix(o.Key, "R11:K7:"), strings.HasPrefix(o.Key, "R11:K8:"), strings.HasPrefix(o.Key, "R11:K9:"), strings.HasPrefix(o.Key, "R11:K10:"):
 			// index kinds, loop/coordinate pairing, window slicers, kernel-shape order, pad signs, extent formulas and
